@@ -225,9 +225,14 @@ class REPEX_state:
         In case a crash, we pick lock locked from previous simulation.
         """
         if not self.locked0:
-            if "restarted_from" in self.config["current"]:
+            if (
+                "restarted_from" in self.config["current"]
+                and self.toinitiate == self.workers - 1
+            ):
                 # get the same pick() as pre-restart. Need to set it again
                 # because current self.rgen was used for calculating self.prob.
+                # Only for the first submission: resetting it again for the
+                # other workers would hand them the very same streams.
                 self.set_rgen()
             return self.pick()
 
@@ -402,7 +407,8 @@ class REPEX_state:
         """Set numpy random generator state from restart."""
         seed_sequence = np.random.SeedSequence(
             entropy=self.config["simulation"]["seed"],
-            n_children_spawned=self.cstep,
+            n_children_spawned=self.cstep
+            + len(self.config["current"].get("locked", [])),
         )
         self.rgen = default_rng(seed_sequence)
         self.rgen.bit_generator.state = self.config["current"]["rng_state"]
